@@ -35,8 +35,8 @@ deriving DecidableEq, Repr
 /-- `NodeIdx { end, index }` -/
 abbrev Idx := Nat × Nat
 
-/-- `NodeIdx::empty()` -/
-def idxEmpty : Idx := (65535, 65535)
+/-- `NodeIdx::empty()`: `(u16::MAX, u32::MAX)` (the row index is `u32` since 9fb3dd8) -/
+def idxEmpty : Idx := (65535, 4294967295)
 
 /-- `struct Lattice` -/
 structure Lat where
